@@ -61,6 +61,10 @@ def run_property(pid: str, tier: str, write_evidence=True, quiet=False) -> int:
             # earlier is reported, with this as a note); with no violation the run is undecided
             ctx.anchor_errors.append(e)
             aborted = True
+        # contradiction rules over every function of the modules the property is anchored in (lints.py)
+        from . import lints as _lints
+
+        ctx.section(_lints.check, ctx, pid)
         if tier == "thorough" and hasattr(mod, "run_thorough"):
             mod.run_thorough(ctx)
         n = len(ctx.obligations)
